@@ -256,3 +256,11 @@ def r08e(ctx, repo):
     ctx.check(bool(new_relink), "R08e", dc, dc.node, "the copy is relinked", "Model.__deepcopy__ returns an unlinked copy")
     ss = repo.func("model", "Model.__setstate__")
     ctx.check(any(isinstance(c, ast.Call) and isinstance(c.func, ast.Attribute) and c.func.attr == "relink" for c in own_nodes(ss.node)), "R08e", ss, ss.node, "unpickled model is relinked", "Model.__setstate__ does not relink the unpickled model")
+
+
+def thorough(ctx):
+    from . import sweeps
+
+    T, cg, E = engines(ctx.repo)
+    sweeps.effect_overview(ctx, ctx.repo, E)
+    sweeps.pyflakes_crossref(ctx, ctx.repo)
